@@ -287,10 +287,33 @@ func SelectOrder(n int) []int {
 	return out
 }
 
-// RecvOK and Recv let siminstr bracket receive expressions that are not whole statements.
+// ZeroOfSend is ZeroOf for the channel of a send statement (accepts send-only channels).
+func ZeroOfSend[T any](ch chan<- T) (z T) { return z }
+
+// Recv and Recv2 are what siminstr turns receive expressions into: the channel operand is
+// evaluated by the caller under the baton, the receive itself is a scheduling point.
 func Recv[T any](ch <-chan T) T {
 	g := BeginBlock()
 	v := <-ch
 	EndBlock(g)
 	return v
+}
+
+func Recv2[T any](ch <-chan T) (T, bool) {
+	g := BeginBlock()
+	v, ok := <-ch
+	EndBlock(g)
+	return v, ok
+}
+
+// OnceDo is what `once.Do(f)` becomes (do = once.Do): a goroutine that has to wait for
+// another one's f to finish waits off the baton; f itself runs under the baton.
+func OnceDo(do func(func()), f func()) {
+	g := BeginBlock()
+	do(func() {
+		EndBlock(g)
+		f()
+		g = BeginBlock()
+	})
+	EndBlock(g)
 }
